@@ -113,3 +113,26 @@ SYMRT_HARNESS(C07_solve) {
   symrt::at("PIP_Problem::solve");
   check_tree(pip, pr, m, "C07");
 }
+
+// Incremental re-solve from a tableau with a non-unit common denominator: the rows solved first are a sum and a
+// difference of two variables (their basis has determinant 2), the rows added afterwards mention a third variable
+// that is still a zero-valued column of the first tableau.
+SYMRT_HARNESS(C07_fractional) {
+  long Bb = symrt::param("Bb", 2);
+  Prob pr; pr.nv = 3; pr.np = 1;
+  auto row = [&](long a0, long a1, long a2, long ap, const mpz_class& b) { std::vector<mpz_class> r; r.push_back(a0); r.push_back(a1); r.push_back(a2); r.push_back(ap); pr.a.push_back(r); pr.b.push_back(b); pr.kind.push_back(0); };
+  long k = 1 + symrt::choose("k", 2);
+  row(1, 1, 0, -k, symrt::cinput("b0", -Bb, Bb));                 // x0 + x1 >= k p - b0
+  row(1, symrt::flag("s1") ? -1 : 1, 0, 0, symrt::cinput("b1", -1, 1));   // x0 -/+ x1 >= -b1
+  long a = symrt::choose("a", 2), c = 1, d = symrt::choose("d", 3) - 1;
+  row(0, a, c, -d, symrt::cinput("b2", -Bb, Bb));                 // a x1 + x2 >= d p - b2
+  if (symrt::param("m", 3) > 3) row(-symrt::choose("e0", 2), -symrt::choose("e1", 2), 3, 0, symrt::cinput("b3", -1, 1));   // 3 x2 >= e0 x0 + e1 x1 - b3
+  unsigned m = pr.a.size();
+  Variables_Set params; params.insert(Variable(3));
+  PIP_Problem pip(4); pip.add_to_parameter_space_dimensions(params);
+  pip.add_constraint(pr.con(0)); pip.add_constraint(pr.con(1));
+  symrt::at("PIP_Problem::solve (first)"); (void) pip.solve();
+  for (unsigned i = 2; i < m; ++i) { pip.add_constraint(pr.con(i)); if (symrt::flag(S("resolve", i))) { symrt::at("PIP_Problem::solve (step)"); (void) pip.solve(); } }
+  symrt::at("PIP_Problem::solve");
+  check_tree(pip, pr, m, "C07");
+}
